@@ -85,6 +85,16 @@ def main():
         with open(path, "wb") as fh:
             fh.write(data)
         want = {f: ORACLE[f](data) for f in fmts}
+        # the same bytes reached through a symbolic link (link text much shorter / longer than the content)
+        lnk = os.path.join(run.tmp, f"l{size}")
+        os.symlink(path, lnk)
+        for f in fmts:
+            cid = f"symlink/{f}/{size}"
+            if run.want(cid):
+                run.case(cid, ("symlink", f, size))
+                got = [hasher.hash_file(lnk, f), classes[f].hash_file(lnk), hasher.multiple_format_hash_file(lnk, [f, "md5"])[f]]
+                if any(g != want[f] for g in got):
+                    run.violation(cid, f"digest via symlink {f} size {size}: {got} != standard {want[f]}", f"symlink/{f}", contract="ascmhl.hasher.Hasher.hash_file", inp={"size": size, "format": f})
         for f in fmts:
             for ep, fn in [
                 ("hash_file", lambda: hasher.hash_file(path, f)),
